@@ -229,7 +229,51 @@ func guardsOf(i ssa.Instruction) []guardAtom {
 				break
 			}
 			out = append(out, guardAtom{cond, pol, ifi, si})
+			out = append(out, expandBoolPhi(cond, pol, ifi, si, 3)...)
 		}
+	}
+	return out
+}
+
+// expandBoolPhi: a condition computed by && or || is a phi of booleans (a switch case `A && B`,
+// or `ok := A && B; if ok`). When the phi is known true and all edges but one are the constant
+// false, the remaining operand is true and so is everything that guards the block it comes from
+// (the earlier operands); dually for || and a phi known false.
+func expandBoolPhi(cond ssa.Value, pol bool, at ssa.Instruction, succ int, depth int) []guardAtom {
+	phi, ok := cond.(*ssa.Phi)
+	if !ok || depth == 0 || !isBoolType(phi.Type()) {
+		return nil
+	}
+	rest := -1
+	for k, e := range phi.Edges {
+		if kc, isK := e.(*ssa.Const); isK && kc.Value != nil && (kc.Value.String() == "true") != pol {
+			continue // this edge would give the other outcome
+		}
+		if rest >= 0 {
+			return nil // more than one edge can give this outcome
+		}
+		rest = k
+	}
+	if rest < 0 {
+		return nil
+	}
+	var out []guardAtom
+	e, pred := phi.Edges[rest], phi.Block().Preds[rest]
+	if _, isK := e.(*ssa.Const); !isK {
+		c2, p2 := e, pol
+		for {
+			if u, ok := c2.(*ssa.UnOp); ok && u.Op == token.NOT {
+				c2, p2 = u.X, !p2
+				continue
+			}
+			break
+		}
+		out = append(out, guardAtom{c2, p2, at, succ})
+		out = append(out, expandBoolPhi(c2, p2, at, succ, depth-1)...)
+	}
+	// what holds on arrival in the predecessor the value comes from
+	for _, g := range guardsOf(pred.Instrs[len(pred.Instrs)-1]) {
+		out = append(out, guardAtom{g.Cond, g.Pol, at, succ})
 	}
 	return out
 }
